@@ -1,7 +1,7 @@
 (** Props/C09.v — C09: every one-hot event encoding is a bijection onto its
     class range.  Only statements, [exact], and [Print Assumptions]. *)
 From Coq Require Import ZArith List Bool.
-From NS Require Import Gen.G09 Model.OneHot Proofs.OneHot.
+From NS Require Import Gen.G09 Model.OneHot Proofs.OneHot Model.ChordOneHot Proofs.ChordOneHot.
 Import ListNotations.
 Local Open Scope Z_scope.
 
@@ -109,6 +109,51 @@ Theorem C09_density_bin_lower_bound : forall bs e,
   strictly_inc 0 bs -> 0 <= e -> dens_decode bs (dens_encode bs e) <= e.
 Proof. exact dens_enc_dec_lower. Qed.
 Print Assumptions C09_density_bin_lower_bound.
+
+(** Chord one-hot encodings (major/minor: 25 classes; triads: 49).  An event is NO_CHORD ([None]) or the
+    (root, quality) chord_symbols_lib reads from the figure; decoding returns the meaning of the produced name. *)
+Theorem C09_chord_majmin_decode_encode : forall i, 0 <= i < ch_num_classes 2 ->
+  exists ev, mm_decode i = ChOk ev /\ mm_encode ev = ChOk i.
+Proof. exact mm_decode_encode. Qed.
+Print Assumptions C09_chord_majmin_decode_encode.
+
+Theorem C09_chord_triad_decode_encode : forall i, 0 <= i < ch_num_classes 4 ->
+  exists ev, triad_decode i = ChOk ev /\ triad_encode ev = ChOk i.
+Proof. exact triad_decode_encode. Qed.
+Print Assumptions C09_chord_triad_decode_encode.
+
+Theorem C09_chord_majmin_decode_injective : forall i j,
+  0 <= i < ch_num_classes 2 -> 0 <= j < ch_num_classes 2 -> mm_decode i = mm_decode j -> i = j.
+Proof. exact mm_decode_injective. Qed.
+Print Assumptions C09_chord_majmin_decode_injective.
+
+Theorem C09_chord_triad_decode_injective : forall i j,
+  0 <= i < ch_num_classes 4 -> 0 <= j < ch_num_classes 4 -> triad_decode i = triad_decode j -> i = j.
+Proof. exact triad_decode_injective. Qed.
+Print Assumptions C09_chord_triad_decode_injective.
+
+Theorem C09_chord_majmin_encode_decode : forall r q c, 0 <= r < 12 -> 0 <= q < 5 ->
+  mm_encode (Some (r, q)) = ChOk c ->
+  0 <= c < ch_num_classes 2 /\ mm_decode c = ChOk (Some (r, q)) /\ mm_accepts q = true.
+Proof. exact mm_encode_decode. Qed.
+Print Assumptions C09_chord_majmin_encode_decode.
+
+Theorem C09_chord_triad_encode_decode : forall r q c, 0 <= r < 12 -> 0 <= q < 5 ->
+  triad_encode (Some (r, q)) = ChOk c ->
+  0 <= c < ch_num_classes 4 /\ triad_decode c = ChOk (Some (r, q)) /\ triad_accepts q = true.
+Proof. exact triad_encode_decode. Qed.
+Print Assumptions C09_chord_triad_encode_decode.
+
+Theorem C09_chord_encode_rejects_only_other_qualities : forall r q, 0 <= r < 12 -> 0 <= q < 5 ->
+  (mm_encode (Some (r, q)) = ChErr -> mm_accepts q = false) /\
+  (triad_encode (Some (r, q)) = ChErr -> triad_accepts q = false).
+Proof. intros r q Hr Hq. split; [exact (mm_encode_rejects r q Hr Hq) | exact (triad_encode_rejects r q Hr Hq)]. Qed.
+Print Assumptions C09_chord_encode_rejects_only_other_qualities.
+
+Theorem C09_chord_no_chord_is_class_zero : mm_encode None = ChOk 0 /\ triad_encode None = ChOk 0 /\
+  mm_decode 0 = ChOk None /\ triad_decode 0 = ChOk None.
+Proof. exact no_chord_is_class_zero. Qed.
+Print Assumptions C09_chord_no_chord_is_class_zero.
 
 (** Non-vacuity: the hypotheses are met by the shipped defaults. *)
 Example C09_nonvacuous :
